@@ -10,7 +10,7 @@ Definition set_sites : list site := [
   ((s "sharepoint2text/parsing/extractors/epub_extractor.py"), (s "<module>"), (120)%Z, UMember);
   ((s "sharepoint2text/parsing/extractors/epub_extractor.py"), (s "<module>"), (123)%Z, UMember);
   ((s "sharepoint2text/parsing/extractors/epub_extractor.py"), (s "<module>"), (126)%Z, UMember);
-  ((s "sharepoint2text/parsing/extractors/epub_extractor.py"), (s "<module>"), (677)%Z, UMember);
+  ((s "sharepoint2text/parsing/extractors/epub_extractor.py"), (s "<module>"), (682)%Z, UMember);
   ((s "sharepoint2text/parsing/extractors/html_extractor.py"), (s "<module>"), (111)%Z, UMember);
   ((s "sharepoint2text/parsing/extractors/html_extractor.py"), (s "<module>"), (114)%Z, UMember);
   ((s "sharepoint2text/parsing/extractors/html_extractor.py"), (s "<module>"), (142)%Z, UMember);
@@ -42,7 +42,7 @@ Definition set_sites : list site := [
   ((s "sharepoint2text/parsing/extractors/ms_modern/pptx_extractor.py"), (s "_extract_formulas_from_element"), (660)%Z, UMember);
   ((s "sharepoint2text/parsing/extractors/ms_modern/pptx_extractor.py"), (s "_process_slide_from_context"), (861)%Z, UMember);
   ((s "sharepoint2text/parsing/extractors/ms_modern/xlsx_extractor.py"), (s "<module>"), (79)%Z, UMember);
-  ((s "sharepoint2text/parsing/extractors/open_office/_shared.py"), (s "element_text"), (107)%Z, UMember);
+  ((s "sharepoint2text/parsing/extractors/open_office/_shared.py"), (s "element_text"), (114)%Z, UMember);
   ((s "sharepoint2text/parsing/extractors/open_office/odf_extractor.py"), (s "<module>"), (65)%Z, UMember);
   ((s "sharepoint2text/parsing/extractors/open_office/odg_extractor.py"), (s "<module>"), (74)%Z, UMember);
   ((s "sharepoint2text/parsing/extractors/open_office/odg_extractor.py"), (s "_extract_images"), (107)%Z, UMember);
@@ -87,7 +87,7 @@ Definition stream_sites : list stream_site := [
   ((s "sharepoint2text/parsing/extractors/archive_extractor.py"), (s "_extract_from_7z_optimized"), (467)%Z, (s "seek"));
   ((s "sharepoint2text/parsing/extractors/archive_extractor.py"), (s "_extract_from_7z_optimized"), (468)%Z, (s "tell"));
   ((s "sharepoint2text/parsing/extractors/archive_extractor.py"), (s "_extract_from_7z_optimized"), (469)%Z, (s "seek"));
-  ((s "sharepoint2text/parsing/extractors/epub_extractor.py"), (s "read_epub"), (756)%Z, (s "seek"));
+  ((s "sharepoint2text/parsing/extractors/epub_extractor.py"), (s "read_epub"), (761)%Z, (s "seek"));
   ((s "sharepoint2text/parsing/extractors/html_extractor.py"), (s "read_html"), (629)%Z, (s "seek"));
   ((s "sharepoint2text/parsing/extractors/html_extractor.py"), (s "read_html"), (631)%Z, (s "read"));
   ((s "sharepoint2text/parsing/extractors/mail/eml_email_extractor.py"), (s "read_eml_format_mail"), (261)%Z, (s "seek"));
